@@ -44,9 +44,12 @@ theorem source_shape :
       ["search_pos.early_function_pos",
        "search_pos.last_macro_function_index == macro_index && i < search_pos.next_pos",
        "activate_pos < search_pos.next_pos", "activate_pos = tokens.len() - trimmed.len()",
-       "trimmed = trim_whitespace_start(&tokens[i + 1..])", "pos.next_pos < tokens.len()"] := by
+       "trimmed = trim_whitespace_start(&tokens[i + 1..])", "pos.next_pos < tokens.len()"] ∧
+    -- the nesting limit of #include: `includeFile` with fuel `maxIncludeDepth` answers `Err.includeFuel` exactly
+    -- where the code answers `IncludeDepthExceeded` (the driver runs the model with this fuel)
+    maxIncludeDepth = 200 ∧ includeDepthCheckedBeforeLoad = true := by
   refine ⟨by decide, by decide, by decide, by decide, by decide, by decide, by decide, ?_, by decide, by decide,
-    by decide, by decide⟩
+    by decide, by decide, by decide, by decide⟩
   intro t; cases t <;> decide
 
 /-! ## Termination -/
